@@ -20,7 +20,8 @@ RULE = ("(a) enumerated: every unordered pair of calls from {store_metadata(p,F,
         "version it returns in some sequential order, or a not-found error (ValueError / FileNotFoundError) when the "
         "document is absent in some sequential order. No deadlock. "
         "evaluations = controlled executions. Non-trivial = >=1 preemption inside a call and the two calls touch "
-        "the same document or one of them deletes; distinct key = (start, program, schedule, outcomes).")
+        "the same document or one of them deletes; distinct key = (start, program, schedule, outcomes)."
+        ' Family different-documents: store || store / delete / read on DIFFERENT documents (colliding pid+format concatenations, same pid other format, other pid same format), through one instance and through two, every single-preemption schedule: such calls commute.')
 EXHAUSTIVE_NOTE = "part (a) enumerates all 36 pairs x 3 starts x all schedules up to the stated preemption bound"
 ASSUMPTIONS = c07.ASSUMPTIONS
 SHRINK_BUDGET = 60.0
